@@ -123,6 +123,8 @@ class C18(Check):
     def describe(self, c):
         return {'law': c['law'], 'lhs': 'out = ' + fml.to_text(c['f']), 'rhs': 'out = ' + fml.to_text(c['g']), 'data': c['cols']}
 
+    SHRINK = False
+
     def still_fails(self, model, c):
         return False, None   # both sides are tied: report unshrunk
 
